@@ -364,6 +364,10 @@ class BinaryStrOperator():
         self.left = toks[0]
         self.right = toks[2]
         self.op = toks[1]
+        for operand in (self.left, self.right):
+            if not hasattr(operand, 'evalExpressionToString'):
+                raise ParseError("Invalid syntax: operands of '{}' must be strings or function calls"
+                                    .format(self.op))
 
     def __eq__(self, other):
         return isinstance(other, BinaryStrOperator) and \
